@@ -239,15 +239,9 @@ fn gen_scenario(rng: &mut Rng) -> Scenario {
     }
     let lport_eph = rng.chance(1, 6);
     if !lport_eph && rng.chance(1, 4) {
-        // a small ephemeral range: the connectors of one host wrap the port counter while earlier streams are
-        // still open (there is always one port more than connectors)
+        // a small ephemeral range (always one port more than connectors)
         let span = n as u16 + rng.range(0, 2) as u16;
         cfg.ephemeral = Some((50_000, 50_000 + span));
-        for c in conns.iter_mut() {
-            if rng.chance(1, 3) {
-                c.hold = 40 + rng.range(0, 40) as u16;
-            }
-        }
     }
     let lo4 = cfg.ipv6 && rng.chance(1, 3) && !lops.iter().any(|o| matches!(o, LOp::Bind { localhost: true }));
     Scenario { cfg, guarded, hosts, lops, conns, script, lport_eph, lo4 }
@@ -901,10 +895,23 @@ fn judge(sc: &Scenario, o: &Outcome, probes: &mut Counters) -> (Option<Violation
             Res::Ok { local, .. } => Some(*local),
             _ => o.syn_src[x],
         };
+        // (with a small ephemeral range a source address is used again by a later connector: an event on the
+        // link belongs to the latest connector with that address that had started by then)
+        let later_same_src: Vec<u64> = (0..n)
+            .filter(|&y| y != x && ci[y].started && ci[y].start_t3 > ci[x].start_t3)
+            .filter(|&y| {
+                let sy = match &ci[y].res {
+                    Res::Ok { local, .. } => Some(*local),
+                    _ => o.syn_src[y],
+                };
+                sy.is_some() && sy == src
+            })
+            .map(|y| ci[y].start_t3)
+            .collect();
         match src {
             Some(src) => {
                 for r in recs {
-                    if r.t3 < ci[x].start_t3 {
+                    if r.t3 < ci[x].start_t3 || later_same_src.iter().any(|t| *t <= r.t3) {
                         continue;
                     }
                     match &r.ev {
